@@ -35,8 +35,8 @@ func TestMain(m *testing.M) {
 
 // IDs of the findings this check knows about (see FINDINGS.json / NOTES.md)
 const (
-	knownIndexPanic   = "C20-filelist-index-above-int63-panics"
-	knownDotConflicts = "C20-dotdot-conflicts-is-generated"
+	knownIndexPanic    = "C20-filelist-index-above-int63-panics"
+	knownDotConflicts  = "C20-dotdot-conflicts-is-generated"
 	knownValidatePanic = "C20-validate-multibyte-name-panics"
 )
 
